@@ -362,6 +362,19 @@ reg(
 )
 
 reg(
+    "C27",
+    "translation_validation",
+    "Only the JSON-output clause on YAML input, at the library's two printing entry points: for the cursors a navigation program yields (each document, its "
+    "fields / elements, one level below) on the generated presentation space, DocumentCursor::stream_json (streamed straight from the YAML cursor) and to_owned_cursor + "
+    "StreamableValue::stream_json (materialised first) must write the same text, compact and indented, with and without sort-keys. The CLI's route selection and "
+    "route-forcing flags, JSON input (whose streamed route echoes raw bytes under a gate in the runner) and YAML output (where the streamed route keeps the source's "
+    "styling by design) are not evaluated.",
+    [only_cfgs(_lazy("yamlload", "rule_route_json", n_quick=30), ["cli"])],
+    quick=["cli"],
+    technique="finite-domain evaluation of the two printers' MIR on cursors of a generated document family (sibling agreement)",
+)
+
+reg(
     "C21",
     "translation_validation",
     "DSVNAV evaluates Dsv::parse_with_config, rows()/fields() iteration, row(n) and DsvRow::get(i) (every n and i, incl. out of range) from MIR on "
@@ -442,14 +455,20 @@ reg(
 
 reg(
     "C23",
-    "other",
-    "Only the delegation clause: in the generic (CLI) evaluator's dispatch functions eval_single (over Expr) and eval_builtin (over Builtin) the catch-all edge of the "
-    "discriminant switch reaches the full evaluator (jq::eval::eval* directly or through the eval_on_owned bridge) on every path to a return, so a construct the generic "
-    "evaluator does not implement natively is delegated rather than answered with a default or an 'unsupported' error (FALLBACK, must-pass-through on the MIR CFG). "
-    "Agreement of the values and errors computed by the natively handled arms is not decided (the seeded C23 change, an off-by-one in a native fast path, is not caught).",
-    [only_cfgs(_lazy("cgrules", "rule_fallback", functions=[("jq::eval_generic::eval_single", r"jq::expr::Expr\b"), ("jq::eval_generic::eval_builtin", r"jq::expr::Builtin\b")]), ["cli"])],
+    "translation_validation",
+    "JQEVAL evaluates both evaluators from MIR and compares them: jq::parser::parse gives the AST, jq::eval::eval::<Vec<u64>, JqSemantics> (library) and "
+    "jq::eval_generic::eval_with_cursor (the CLI's evaluator) run on the same JsonCursor, each result is materialised by its own collect_owned() and its ending read off "
+    "its variant (normal end, error message, break, halt, partial output then one of those); values and endings must agree. Family: 260 programs from the core grammar "
+    "(paths, slices, iteration, pipes, comma, construction, arithmetic, comparison, boolean ops, alternative, conditionals, try/catch, reduce/foreach, label/break, optional, "
+    "~120 builtins) x JSON inputs incl. duplicate keys and edge numbers (every second program x 8 inputs quick; all x 31 thorough). Pairs needing an unmodelled std / "
+    "external item (regex, io, env, a step budget) are skipped and counted; the rule fails closed below 60% evaluated. FALLBACK: the catch-all edges of eval_single / "
+    "eval_builtin reach the full evaluator on every path. A program family, not the language.",
+    [
+        only_cfgs(_lazy("jqeval", "rule_evaluators", floor_share=0.6), ["cli"]),
+        only_cfgs(_lazy("cgrules", "rule_fallback", functions=[("jq::eval_generic::eval_single", r"jq::expr::Expr\b"), ("jq::eval_generic::eval_builtin", r"jq::expr::Builtin\b")]), ["cli"]),
+    ],
     quick=["cli"],
-    technique="must-pass-through check on the MIR CFG of the dispatch functions (catch-all edge -> full evaluator)",
+    technique="finite-domain evaluation of parser and both evaluators' MIR on a program x input family (sibling agreement); must-pass-through dispatch rule on the MIR CFG",
 )
 
 
